@@ -155,17 +155,15 @@ Section OK.
       (pot, dry, fresh, crop_mature caltype dap gdd_cum maturity mature gs).
   Proof. intros. unfold yield_block_src, yields, crop_mature. destruct gs; cbn [Bool.eqb]; src_auto. Qed.
 
-  (* ---- HIadj_pre_anthesis: np.sin / np.pi enter through the class TrigSrc of the generated file, instantiated with
-     the TrigOps of the hand model *)
-  Section Trig.
-    Context {T : TrigOps F}.
-    Definition trig_src : TrigSrc F := {| ssin := tsin; spi := tpi |}.
-
-    Theorem HIadj_pre_anthesis_src_ok : forall (B Bns cc dHI_pre : F),
-      HIadj_pre_anthesis_src (T:=trig_src) B Bns cc dHI_pre = HIadj_pre_anthesis B Bns cc dHI_pre.
-    Proof. intros. unfold HIadj_pre_anthesis_src, HIadj_pre_anthesis. cbn [ssin spi trig_src]. src_auto. Qed.
-  End Trig.
 End OK.
+
+(* ---- HIadj_pre_anthesis: np.sin / np.pi enter through the class TrigSrc of the generated file; the instance
+   [trig_src] (declared as an instance, so that it need not be written) takes them from the TrigOps of the hand model *)
+#[export] Instance trig_src {F : Type} {T : TrigOps F} : TrigSrc F := {| ssin := tsin; spi := tpi |}.
+
+Theorem HIadj_pre_anthesis_src_ok : forall {F : Type} {N : NumOps F} {T : TrigOps F} (B Bns cc dHI_pre : F),
+  HIadj_pre_anthesis_src B Bns cc dHI_pre = HIadj_pre_anthesis B Bns cc dHI_pre.
+Proof. intros. unfold HIadj_pre_anthesis_src, HIadj_pre_anthesis. cbn [ssin spi trig_src]. src_auto. Qed.
 
 Print Assumptions irrigation_src_ok.
 Print Assumptions growth_stage_src_ok.
@@ -238,8 +236,8 @@ Corollary HIref_current_day_src_nonneg (c : YCrop (F:=R)) hiref hifinal dap dcds
 Proof. rewrite HIref_current_day_src_ok. apply hi_ref_nonneg. Qed.
 
 Corollary HIadj_pre_anthesis_src_range B Bns cc d :
-  0 <= HIadj_pre_anthesis_src (T:=trig_src) B Bns cc d /\
-  (0 <= d -> HIadj_pre_anthesis_src (T:=trig_src) B Bns cc d <= 1 + d / 100).
+  0 <= HIadj_pre_anthesis_src B Bns cc d /\
+  (0 <= d -> HIadj_pre_anthesis_src B Bns cc d <= 1 + d / 100).
 Proof. rewrite HIadj_pre_anthesis_src_ok. apply pre_anthesis_range. Qed.
 
 Corollary HIadj_pollination_src_range cc fpol flo ccmin exc kp pc ph t f :
